@@ -52,7 +52,13 @@ RULE = (
     "non-square matrix) and at least one value that does not survive 16 significant digits.  Objects come from the "
     "constructor or from a public operation that leaves another internal state (growth by assignment, scale, "
     "aggregation, normalize, ...); C16/sequence: 2..4 export/import steps in one process with explicit and default "
-    "formats / index bases, every default step judged as a first call (non-trivial: a default step after an explicit one)."
+    "formats / index bases, every default step judged as a first call (non-trivial: a default step after an explicit one).  "
+    "Round 3: sparse modes of length 70000 .. 2**62 with stored subscripts anywhere in them (just above 2**53, odd, at the far "
+    "end; both index bases); C16/large: a few objects per run with 1e4 .. 1.2e5 stored numbers (sparse tensors with 10000 .. "
+    "40000 nonzeros incl. the block edges 16384 / 32768 +-1, dense tensors beyond 65536 cells, Kruskal factors and matrices "
+    "with 17000 .. 40000 rows), data expanded from a seed; C16/fork: export, import, edit the import result in place, import "
+    "again, edit the exported object, export again - every object and file keeps its own state; C16/degenerate: zero-length "
+    "modes, rank 0, default-constructed objects."
 )
 ASSUMPTIONS = [
     "float64 objects are compared bit for bit; integer / float32 / boolean tensors, matrices and sparse values (a minority "
@@ -64,6 +70,10 @@ ASSUMPTIONS = [
     "C16/sequence: steps with an explicit format are performed for the history they create and are not judged (the "
     "property speaks about the default format)",
     "files live in tempfile.mkdtemp() directories removed at the end of each case",
+    "C16/large: the values are expanded from the case's integer seed with numpy's default_rng inside the body (a case of "
+    "40000 literal values would not be a usable replay); the seed itself is drawn by Hypothesis",
+    "C16/degenerate: for a dense object that holds no numbers only type, shape and 'holds no values' are compared (the array "
+    "shape pyttb gives an empty buffer is the constructor's business); sparse tensors cannot have zero-length modes",
 ]
 
 # --------------------------------------------------------------------------
@@ -106,6 +116,35 @@ def needs17(vals) -> bool:
 def _bits_of_text(tok: str):
     """float64 bit pattern of a number written in the file (python's float() is correctly rounded)."""
     return np.array([float(tok)], dtype=np.float64).view(np.uint64)[0]
+
+
+def _big_values(seed, n, nonzero=False) -> np.ndarray:
+    """n finite doubles expanded from an integer seed (the case stays small and replayable): random 64-bit patterns, so
+    the whole exponent range, both signs, subnormals; the non-finite patterns are folded back into the finite range"""
+    rng = np.random.default_rng(int(seed))
+    u = rng.integers(0, 2 ** 64, size=int(n), dtype=np.uint64, endpoint=False)
+    expo = (u >> np.uint64(52)) & np.uint64(0x7FF)
+    u = np.where(expo == np.uint64(0x7FF), u & ~(np.uint64(1) << np.uint64(62)), u)
+    v = u.view(np.float64).copy()
+    k = n // 3  # a third of them of ordinary size (17 significant digits, many decimal exponents)
+    if k:
+        v[:k] = rng.standard_normal(k) * 10.0 ** rng.integers(-12, 13, size=k)
+    if nonzero:
+        v[v == 0] = 1.5
+    return v
+
+
+def _big_sparse(big, shape):
+    """distinct subscripts in a generated stored order + values, from the seed"""
+    rng = np.random.default_rng(int(big["seed"]) + 1)
+    nnz, total = int(big["nnz"]), ref.prod(shape)
+    lin = rng.choice(total, size=nnz, replace=False)  # a random order of distinct cells
+    if big.get("order") == "sorted":
+        lin = np.sort(lin)
+    elif big.get("order") == "reverse":
+        lin = np.sort(lin)[::-1]
+    subs = np.array(np.unravel_index(lin, tuple(shape), order="F"), dtype=np.int64).T.reshape(nnz, len(shape))
+    return subs, _big_values(big["seed"], nnz, nonzero=True).reshape(nnz, 1)
 
 
 class Scratch:
@@ -187,12 +226,15 @@ def _make_tensor(ctx, case):
     """(tensor in the state ``prov`` names, the array it denotes by a NumPy model of how it was made)"""
     shape = tuple(case["shape"])
     N = len(shape)
-    A = gen.arr_F(shape, case["data"]).astype(_DTYPES[case["dtype"]])
+    if case.get("big"):
+        A = np.reshape(_big_values(case["big"]["seed"], ref.prod(shape)), shape, order="F")
+    else:
+        A = gen.arr_F(shape, case["data"]).astype(_DTYPES[case["dtype"]])
     prov = case.get("prov", "ctor")
     a, b = case.get("a", 0), case.get("b", 1)
     try:
         if prov == "grown":  # the shared helper: last slab of a mode assigned by a list of subscripts
-            T = gen.build_tensor(dict(shape=list(shape), data=case["data"], prov="grown"))
+            T = gen.build_tensor(dict(shape=list(shape), data=A.ravel(order="F").tolist(), prov="grown"))
             return T, A
         if prov == "grown-slab":  # last slab of a mode assigned as a subtensor
             cand = [m for m in range(N) if shape[m] >= 2]
@@ -305,10 +347,20 @@ def _sptensor_case(draw, tier, max_cells=None):
         zeros = [draw(st.sampled_from([None, None, 0.0, -0.0])) for _ in keep]
         if all(z is None for z in zeros):
             zeros[draw(st.integers(0, len(keep) - 1))] = draw(st.sampled_from([0.0, -0.0]))
-    # one mode made very long (only a sparse tensor can have it): sizes and subscripts beyond 16 / 32 bits in the file
+    # one mode made very long (only a sparse tensor can have it): sizes and subscripts beyond 16 / 32 bits in the file,
+    # and beyond 2**53 (round 3: integers a float64 cannot hold; nothing is allocated per mode, so such shapes are
+    # ordinary for hashed / 64-bit identifiers).  The small subscripts of that mode are mapped to generated positions
+    # anywhere in the long mode (its far end, just above 2**53, odd values included).
     huge = None
-    if prov in ("ctor", "npint-shape", "explicit-zero") and draw(st.integers(0, 4)) == 0:
-        huge = [draw(st.integers(0, len(shape) - 1)), draw(st.sampled_from([70000, 2 ** 31 + 5, 10 ** 12]))]
+    if prov in ("ctor", "npint-shape", "explicit-zero") and draw(st.integers(0, 2)) == 0:
+        m = draw(st.integers(0, len(shape) - 1))
+        H = draw(st.sampled_from([70000, 2 ** 31 + 5, 10 ** 12, 2 ** 53 + 1, 2 ** 53 + 2, 2 ** 53 + 7, 2 ** 53 + 7,
+                                  2 ** 60, 2 ** 60, 2 ** 62, 2 ** 62]))
+        pos = [st.integers(0, H - 1), st.integers(H - 65, H - 1), st.just(H - 1)]
+        if H > 2 ** 53:
+            pos += [st.integers(2 ** 53, min(H - 1, 2 ** 53 + 64)), st.integers(2 ** 53, H - 1), st.integers(2 ** 53, H - 1)]
+        hmap = sorted(draw(st.lists(st.one_of(*pos), min_size=shape[m], max_size=shape[m], unique=True)))
+        huge = [m, H, hmap]
     return dict(shape=shape, subs=[list(subsF[i]) for i in keep], vals=vals, pattern=pattern, order=order, dtype=dtype,
                 base=draw(st.sampled_from([0, 2, 5, -1, 10, 1000])), prov=prov, zeros=zeros, a=draw(st.integers(0, 7)),
                 huge=huge)
@@ -318,14 +370,20 @@ def _make_sptensor(ctx, case):
     """(sptensor in the state ``prov`` names, expected shape / subs / vals by a NumPy model of how it was made)"""
     shape = tuple(case["shape"])
     N = len(shape)
-    nnz = len(case["subs"])
-    subs = np.array(case["subs"], dtype=np.int64).reshape(nnz, N)
-    vals = np.array(case["vals"], dtype=float).reshape(nnz, 1).astype(_DTYPES[case["dtype"]])
+    if case.get("big"):
+        subs, vals = _big_sparse(case["big"], shape)
+        nnz = subs.shape[0]
+    else:
+        nnz = len(case["subs"])
+        subs = np.array(case["subs"], dtype=np.int64).reshape(nnz, N)
+        vals = np.array(case["vals"], dtype=float).reshape(nnz, 1).astype(_DTYPES[case["dtype"]])
     prov = case.get("prov", "ctor")
     if case.get("huge"):
-        m, H = case["huge"]
-        if nnz:
-            subs[subs[:, m] == shape[m] - 1, m] = H - 1  # the entries in the last slab move to the far end
+        m, H = case["huge"][:2]
+        if nnz and len(case["huge"]) > 2:  # the small subscripts of mode m move to generated positions of the long mode
+            subs[:, m] = np.array(case["huge"][2], dtype=np.int64)[subs[:, m]]
+        elif nnz:
+            subs[subs[:, m] == shape[m] - 1, m] = H - 1  # (older replays) the entries in the last slab move to the far end
         shape = shape[:m] + (H,) + shape[m + 1:]
     if nnz == 0:
         return ttb.sptensor(shape=shape), shape, subs, vals
@@ -395,7 +453,11 @@ def rt_sptensor(ctx, case):
               f"base{case['base']}", "prov-" + prov,
               "stored-zero" if nnz and bool(np.any(vals == 0)) else "no-stored-zero",
               "npint-in-shape" if any(isinstance(x, np.integer) for x in S.shape) else "int-shape",
-              "huge-mode" if case.get("huge") else "small-modes")
+              "huge-mode" if case.get("huge") else "small-modes",
+              *(["mode-longer-than-2^53"] if max(shape) > 2 ** 53 else []),
+              *(["file-subscript-not-a-float64"] if nnz and any(int(float(x)) != x for x in (subs + 1).ravel().tolist()) else []),
+              *(["other-base-subscript-not-a-float64"] if nnz and any(
+                  int(float(x)) != x for x in (subs + case["base"]).ravel().tolist()) else []))
     ctx.nt = nnz >= 2 and len(set(shape)) >= 2 and (not isfloat or needs17(vals.ravel().tolist()))
     keep_subs, keep_vals = np.array(S.subs, copy=True), np.array(S.vals, copy=True)
     with Scratch() as sc:
@@ -521,8 +583,14 @@ def _derive_ktensor(ctx, K, case):
 @cell("C16/ktensor", strategy=_ktensor_case, quick=500, thorough=10000, shards=(2, 8))
 def rt_ktensor(ctx, case):
     shape0, r0 = tuple(case["shape"]), case["rank"]
-    fms0 = [np.array(f, dtype=float).reshape(n, r0) for f, n in zip(case["factors"], shape0)]
-    w0 = np.array(case["weights"], dtype=float)
+    if case.get("big"):
+        allv = _big_values(case["big"]["seed"], r0 * (1 + sum(shape0)))
+        w0 = allv[:r0].copy()
+        offs = np.cumsum([r0] + [n * r0 for n in shape0])
+        fms0 = [allv[offs[i]:offs[i + 1]].reshape(n, r0).copy() for i, n in enumerate(shape0)]
+    else:
+        fms0 = [np.array(f, dtype=float).reshape(n, r0) for f, n in zip(case["factors"], shape0)]
+        w0 = np.array(case["weights"], dtype=float)
     given = [np.asfortranarray(f.copy()) if lay == "F" else np.ascontiguousarray(f.copy())
              for f, lay in zip(fms0, case["layout"])]
     K = ttb.ktensor(given, w0.copy(), copy=case["copy"])
@@ -590,7 +658,10 @@ def _matrix_case(draw, tier, max_size=None):
 @cell("C16/matrix", strategy=_matrix_case, quick=500, thorough=10000, shards=(2, 8))
 def rt_matrix(ctx, case):
     m, n = case["m"], case["n"]
-    A = np.array(case["rows"], dtype=float).reshape(m, n).astype(_DTYPES[case["dtype"]])
+    if case.get("big"):
+        A = _big_values(case["big"]["seed"], m * n).reshape(m, n)
+    else:
+        A = np.array(case["rows"], dtype=float).reshape(m, n).astype(_DTYPES[case["dtype"]])
     lay = case["layout"]
     if lay == "C":
         M = np.ascontiguousarray(A.copy())
@@ -604,7 +675,7 @@ def rt_matrix(ctx, case):
         M = big[::2, ::2]
     ctx.label("layout-" + lay, "square" if m == n else "non-square", "dtype-" + case["dtype"],
               "vector-like" if 1 in (m, n) else "proper-matrix")
-    ctx.nt = m != n and m > 1 and n > 1 and (case["dtype"] != "float" or needs17([v for r in case["rows"] for v in r]))
+    ctx.nt = m != n and m > 1 and n > 1 and (case["dtype"] != "float" or needs17(A.ravel().tolist()))
     with Scratch() as sc:
         p = sc.path()
         with ctx.sut("export_data(matrix)"):
@@ -707,6 +778,269 @@ def _sequence_body(ctx, case):
 def rt_sequence(ctx, case):
     """every default-format export / default-base import of a sequence is judged exactly like a first call"""
     isolated(ctx, _sequence_body, case)
+
+
+# --------------------------------------------------------------------------
+# sizes above internal block thresholds (round 3): a few large objects per run
+# --------------------------------------------------------------------------
+
+_BLOCK_EDGES = [10000, 10001, 16383, 16384, 16385, 32768, 32769, 65536, 65537]
+
+
+@st.composite
+def _large_case(draw, tier):
+    """objects with 1e4..1.2e5 stored numbers: vectorised readers / writers that work in blocks (1e4, 16384, 65536
+    rows, lines or values) have more than one block to get right.  The data are expanded from a seed inside the body
+    (the case stays a few integers); the judges are the ones of the small cells."""
+    kind = draw(st.sampled_from(["sptensor", "sptensor", "sptensor", "tensor", "ktensor", "matrix"]))
+    seed = draw(st.integers(0, 2 ** 31 - 1))
+    count = draw(st.one_of(st.sampled_from(_BLOCK_EDGES[:7]), st.integers(17000, 40000), st.integers(17000, 40000)))
+    if kind == "sptensor":
+        N = draw(st.integers(1, 4))
+        small = [draw(st.integers(1, 30)) for _ in range(N - 1)]
+        fill = draw(st.sampled_from([1, 2, 3, 10, 1000]))  # 1: every cell stored
+        shape = small + [-(-count * fill // ref.prod(small))]
+        shape = [shape[i] for i in draw(st.permutations(range(N)))]
+        if ref.prod(shape) // count >= 1000 and draw(st.booleans()):  # (room for distinct cells stays ample)
+            shape = [s * 3 + 1 for s in shape]
+        return dict(kind=kind, obj=dict(shape=shape, big=dict(seed=seed, nnz=count, order=draw(st.sampled_from(
+            ["random", "random", "sorted", "reverse"]))), pattern="some", order="random", dtype="float", prov="ctor",
+            zeros=[], a=0, huge=None, base=draw(st.sampled_from([0, 2, 5, -1, 1000]))))
+    if kind == "tensor":
+        N = draw(st.integers(1, 4))
+        small = [draw(st.integers(1, 12)) for _ in range(N - 1)]
+        count = draw(st.one_of(st.just(count), st.sampled_from(_BLOCK_EDGES[7:]), st.integers(66000, 120000)))
+        shape = small + [-(-count // ref.prod(small))]
+        shape = [shape[i] for i in draw(st.permutations(range(N)))]
+        return dict(kind=kind, obj=dict(shape=shape, big=dict(seed=seed), dtype="float", prov=draw(st.sampled_from(
+            ["ctor", "ctor", "nocopy-C", "permuted", "grown-slab"])), a=draw(st.integers(0, 7)), b=1, v=1.5))
+    if kind == "ktensor":
+        N = draw(st.integers(1, 3))
+        shape = [draw(st.integers(1, 5)) for _ in range(N - 1)] + [count]
+        shape = [shape[i] for i in draw(st.permutations(range(N)))]
+        return dict(kind=kind, obj=dict(shape=shape, rank=draw(st.integers(1, 4)), big=dict(seed=seed),
+                                        layout=[draw(st.sampled_from(["C", "F"])) for _ in range(N)],
+                                        copy=draw(st.booleans()), prov="ctor", a=0))
+    form = draw(st.sampled_from(["tall", "wide", "square"]))
+    k = draw(st.integers(1, 4))
+    m, n = {"tall": (count, k), "wide": (k, count), "square": (130 + count % 200, 130 + (count // 7) % 200)}[form]
+    return dict(kind=kind, obj=dict(m=m, n=n, big=dict(seed=seed), dtype="float",
+                                    layout=draw(st.sampled_from(["C", "F", "transposed-view", "strided-view"]))))
+
+
+@cell("C16/large", strategy=_large_case, quick=4, thorough=40, shards=(2, 8))
+def rt_large(ctx, case):
+    """the round trips of the small cells on objects above every internal block size"""
+    ctx.label("large-" + case["kind"])
+    _RT[case["kind"]](ctx, case["obj"])
+
+
+# --------------------------------------------------------------------------
+# several live objects (round 3): the exported object, the file and every import result are independent of each other
+# --------------------------------------------------------------------------
+
+
+def _state(kind, X):
+    """what the object holds now, read through its public attributes (copies)"""
+    if kind == "tensor":
+        return dict(shape=tuple(int(x) for x in X.shape), subs=None, arrs=[np.array(X.data, dtype=float, copy=True)])
+    if kind == "sptensor":
+        N = len(X.shape)
+        subs = np.array(X.subs, copy=True)
+        return dict(shape=tuple(int(x) for x in X.shape), subs=subs.reshape(-1, N) if subs.size else np.zeros((0, N), dtype=int),
+                    arrs=[np.array(X.vals, dtype=float, copy=True).reshape(-1, 1)])
+    if kind == "ktensor":
+        return dict(shape=tuple(int(x) for x in X.shape), subs=None,
+                    arrs=[np.array(X.weights, dtype=float, copy=True)] +
+                         [np.array(f, dtype=float, copy=True) for f in X.factor_matrices])
+    return dict(shape=tuple(X.shape), subs=None, arrs=[np.array(X, dtype=float, copy=True)])
+
+
+def _holds(kind, X, want) -> bool:
+    try:
+        if kind == "matrix" and not isinstance(X, np.ndarray):
+            return False
+        if kind != "matrix" and type(X).__name__ != kind:
+            return False
+        cur = _state(kind, X)
+    except Exception:  # noqa: BLE001
+        return False
+    return (cur["shape"] == want["shape"] and len(cur["arrs"]) == len(want["arrs"])
+            and all(same_bits(a, b) for a, b in zip(cur["arrs"], want["arrs"]))
+            and (want["subs"] is None or np.array_equal(cur["subs"], want["subs"])))
+
+
+def _edit(kind, X, e):
+    """one documented in-place change (item assignment / in-place method); returns the object that carries it"""
+    if kind == "tensor":
+        sub = tuple(e["pos"][d] % n for d, n in enumerate(X.shape))
+        X[sub] = e["v"]
+    elif kind == "sptensor":
+        if X.subs.size and e["how"] % 2 == 0:
+            X[tuple(int(i) for i in X.subs[e["pos"][0] % X.subs.shape[0]])] = e["v"]  # a stored value is replaced
+        else:
+            X[tuple(e["pos"][d] % n for d, n in enumerate(X.shape))] = e["v"]
+    elif kind == "ktensor":
+        how = e["how"] % 3
+        if how == 0:
+            X.weights[e["pos"][0] % X.weights.size] = e["v"]
+        elif how == 1:
+            f = X.factor_matrices[e["pos"][0] % len(X.factor_matrices)]
+            f[e["pos"][1] % f.shape[0], e["pos"][2] % f.shape[1]] = e["v"]
+        else:
+            X.arrange(permutation=np.roll(np.arange(X.weights.size), 1))
+    else:
+        X[e["pos"][0] % X.shape[0], e["pos"][1] % X.shape[1]] = e["v"]
+    return X
+
+
+@st.composite
+def _fork_case(draw, tier):
+    kind = draw(st.sampled_from(["tensor", "sptensor", "ktensor", "matrix"]))
+    obj = draw({"tensor": _tensor_case(tier, max_cells=24), "sptensor": _sptensor_case(tier, max_cells=24),
+                "ktensor": _ktensor_case(tier, max_size=3), "matrix": _matrix_case(tier, max_size=4)}[kind])
+    obj = dict(obj, dtype="float", prov="ctor", huge=None) if kind != "ktensor" else dict(obj, prov="ctor")
+    if kind in ("tensor", "matrix") and obj.get("dtype") == "float":
+        pass
+    edits = [dict(pos=[draw(st.integers(0, 7)) for _ in range(4)], how=draw(st.integers(0, 5)),
+                  v=draw(st.sampled_from([2.5, -7.0, 1.0 / 3.0, 1e-300, 123456789.12345679]))) for _ in range(2)]
+    return dict(kind=kind, obj=obj, edits=edits, same_file=draw(st.booleans()))
+
+
+def _fork_body(ctx, case):
+    kind, obj, (e1, e2) = case["kind"], case["obj"], case["edits"]
+    if kind in ("tensor", "matrix", "sptensor") and obj.get("dtype") != "float":
+        obj = dict(obj, dtype="float")
+    try:
+        if kind == "tensor":
+            n = ref.prod(obj["shape"])
+            X = ttb.tensor(gen.arr_F(obj["shape"], [float(v) for v in obj["data"]][:n]).copy(order="F"), tuple(obj["shape"]))
+        elif kind == "sptensor":
+            X = _make_sptensor(ctx, dict(obj, vals=[float(v) for v in obj["vals"]]))[0]
+        elif kind == "ktensor":
+            X = ttb.ktensor([np.array(f, dtype=float).reshape(n_, obj["rank"]) for f, n_ in zip(obj["factors"], obj["shape"])],
+                            np.array(obj["weights"], dtype=float))
+        else:
+            X = np.array(obj["rows"], dtype=float).reshape(obj["m"], obj["n"])
+    except Exception:  # noqa: BLE001
+        ctx.skip("building-the-object-raised")
+    s0 = _state(kind, X)
+    ctx.label("fork-" + kind, "same-file-rewritten" if case["same_file"] else "second-file")
+    with Scratch() as sc:
+        p = sc.path()
+        with ctx.sut(f"export_data({kind})"):
+            ttb.export_data(X, p)
+        with ctx.sut(f"import_data({kind})"):
+            R1 = ttb.import_data(p)
+        ctx.require(_holds(kind, R1, s0), "fork-first-import-is-what-was-written")
+        # 1. a result of import_data is changed in place: the exported object and a second import do not see it
+        try:
+            R1 = _edit(kind, R1, e1)
+        except Exception:  # noqa: BLE001   (assignment is another property's subject)
+            ctx.skip("editing-the-import-result-raised")
+        s1 = _state(kind, R1)
+        changed1 = not _holds(kind, R1, s0)
+        ctx.check(_holds(kind, X, s0), "fork-edit-of-import-result-reaches-exported-object")
+        with ctx.sut(f"import_data({kind}) again"):
+            R2 = ttb.import_data(p)
+        ctx.check(_holds(kind, R2, s0), "fork-second-import-sees-edit-of-first-result")
+        ctx.check(_holds(kind, R1, s1), "fork-second-import-changes-first-result")
+        # 2. the exported object is changed in place and exported again (same path or another one): the file shows the
+        #    present state, the objects read before keep theirs
+        try:
+            X = _edit(kind, X, e2)
+        except Exception:  # noqa: BLE001
+            ctx.skip("editing-the-exported-object-raised")
+        s2 = _state(kind, X)
+        changed2 = not _holds(kind, X, s0)
+        p2 = p if case["same_file"] else sc.path("y.tns")
+        with ctx.sut(f"export_data({kind}) after edit"):
+            ttb.export_data(X, p2)
+        with ctx.sut(f"import_data({kind}) after edit"):
+            R3 = ttb.import_data(p2)
+        ctx.check(_holds(kind, R3, s2), "fork-export-after-edit-writes-present-state")
+        ctx.check(_holds(kind, R2, s0), "fork-earlier-import-result-changed-by-later-export")
+        ctx.check(_holds(kind, R1, s1), "fork-edited-import-result-changed-by-later-export")
+        ctx.check(_holds(kind, X, s2), "export-leaves-object")
+        if not case["same_file"]:
+            with ctx.sut(f"import_data({kind}) first file at the end"):
+                R4 = ttb.import_data(p)
+            ctx.check(_holds(kind, R4, s0), "fork-first-file-read-again-at-the-end")
+    ctx.nt = changed1 and changed2
+    ctx.label("both-edits-change-something" if ctx.nt else "an-edit-changed-nothing")
+
+
+@cell("C16/fork", strategy=_fork_case, quick=120, thorough=2500, shards=(2, 8))
+def rt_fork(ctx, case):
+    """export X, import, edit the import result in place, import again, edit X in place, export again: every object
+    and file keeps / shows exactly its own state (forked child, like C16/sequence)"""
+    isolated(ctx, _fork_body, case)
+
+
+# --------------------------------------------------------------------------
+# degenerate objects (round 3): zero-length modes, objects without any mode, rank 0
+# --------------------------------------------------------------------------
+
+
+def _enum_degenerate(tier):
+    for shp in ([0], [0, 3], [3, 0], [2, 0, 3], [0, 0], [1, 0]):
+        yield dict(kind="tensor", shape=shp)
+        if len(shp) == 2:
+            yield dict(kind="matrix", shape=shp)
+    for shp in ([0, 3], [2, 0, 3], [0], [0, 0]):
+        for r in (1, 2):
+            yield dict(kind="ktensor", shape=shp, rank=r)
+    yield dict(kind="ktensor", shape=[2, 3], rank=0)
+    yield dict(kind="ktensor", shape=[4], rank=0)
+    for kind in ("tensor", "sptensor", "ktensor"):
+        yield dict(kind=kind, shape=None)  # the documented empty object of the class (default constructor)
+
+
+def is_default_constructed(case):
+    return case.get("shape") is None
+
+
+def is_rank_zero(case):
+    return case.get("kind") == "ktensor" and case.get("rank") == 0 and case.get("shape") is not None
+
+
+PREDICATES = {"default_constructed_object": is_default_constructed, "rank_zero_ktensor": is_rank_zero}
+
+
+@cell("C16/degenerate", enum=_enum_degenerate)
+def rt_degenerate(ctx, case):
+    """objects that hold no numbers at all: the file is written and read back as the same (empty) object"""
+    kind, shp = case["kind"], case["shape"]
+    ctx.nt = True
+    tag = "default-constructed" if shp is None else ("rank-zero" if case.get("rank") == 0 else "zero-length-mode")
+    ctx.label(kind, tag)
+    if shp is None:
+        X = {"tensor": ttb.tensor, "sptensor": ttb.sptensor, "ktensor": ttb.ktensor}[kind]()
+    elif kind == "tensor":
+        X = ttb.tensor(np.zeros(tuple(shp)), tuple(shp))
+    elif kind == "matrix":
+        X = np.zeros(tuple(shp))
+    else:
+        r = case["rank"]
+        X = ttb.ktensor([np.arange(1.0, n * r + 1).reshape(n, r) / 3.0 for n in shp], np.arange(1.0, r + 1) / 7.0)
+    s0 = _state(kind, X)
+    with Scratch() as sc:
+        p = sc.path()
+        with ctx.sut(f"export_data({kind})/{tag}"):
+            ttb.export_data(X, p)
+        with ctx.sut(f"import_data({kind})/{tag}"):
+            R = ttb.import_data(p)
+    ctx.require(isinstance(R, np.ndarray) if kind == "matrix" else type(R).__name__ == kind, f"degenerate-type/{tag}",
+                type(R).__name__)
+    got = _state(kind, R)
+    ctx.check(got["shape"] == s0["shape"], f"degenerate-shape/{tag}", (got["shape"], s0["shape"]))
+    if kind == "ktensor":
+        ctx.check(len(got["arrs"]) == len(s0["arrs"]) and all(
+            a.shape == b.shape and same_bits(a, b) for a, b in zip(got["arrs"], s0["arrs"])),
+            f"degenerate-ktensor-components/{tag}", [a.shape for a in got["arrs"]])
+    else:  # nothing is stored: (the array shape pyttb gives an empty buffer is not the file format's business)
+        ctx.check(all(a.size == 0 for a in got["arrs"]), f"degenerate-holds-no-values/{tag}", [a.shape for a in got["arrs"]])
+    ctx.check(_holds(kind, X, s0), "export-leaves-object")
 
 
 # --------------------------------------------------------------------------
